@@ -104,5 +104,20 @@ def raised_in_implementation(e):
     return None
 
 
+def leave(rc):
+    """Exit without waiting for worker processes that the code under test left
+    behind (multiprocessing joins its children at interpreter exit: a leaked
+    worker that waits for a command would hang the check after its verdict)."""
+    try:
+        import multiprocessing
+        for child in multiprocessing.active_children():
+            child.terminate()
+    except Exception:
+        pass
+    sys.stdout.flush()
+    sys.stderr.flush()
+    os._exit(rc if isinstance(rc, int) else 0)
+
+
 if __name__ == '__main__':
-    sys.exit(main())
+    leave(main())
